@@ -121,4 +121,5 @@ def run(ctx, R):
     # obligations of R6.4): otherwise two writes based on one generation can
     # both be accepted
     n10 = C.reuse_obligations(ctx, R, c06.r64, 'R7.10')
+    n10 += C.reuse_obligations(ctx, R, c06.r68, 'R7.10')
     R.count('R7.10', n10, 4)
